@@ -9,10 +9,10 @@ CONSTANTS Kinds <- K1
  ShareRefs = FALSE
  OnFetchError = "error"
  MaxCalls = 3
- MaxVer = 1
+ MaxVer = 0
  MaxInv = 1
- MaxTrim = 0
- MaxFail = 1
+ MaxTrim = 1
+ MaxFail = 2
 INVARIANTS Safety FetchExactlyMissing
 PROPERTIES DropsAffectedProp FailProp
 VIEW View
